@@ -17,3 +17,9 @@ CHECKS["C10"] = dict(
     text="All schedules of the unseeded sample order are explored for n=4 (n=5 thorough) and deviation-bounded for n=6..8; each fitted model is read back through serde and checked for box feasibility in the direction of its sample's class, zero sum, equality of the decision function with the closed-form kernel expansion and the sign rule. SVR: epsilon-insensitive KKT within tol at every training point. This is the level at which 'for every visiting order' can be decided at all.",
     note="Support vectors matched to rows by value (any consistent matching accepted); KKT slack tol+1e-9; sigmoid kernel excluded from SVR optimality as the property states.",
 )
+CHECKS["C06"] = dict(
+    engine="E1",
+    technique="exhaustive enumeration of forest configurations (data catalogue x seed block x n_trees x m x limits x keep_samples x criterion) with the real seeded RNG, plus EVERY bootstrap / feature-shuffle outcome of tiny forests through the verif-hooks seam; aggregation oracle against the forest's own deserialised member trees",
+    text="Each fit is repeated and compared bit for bit (seed reproducibility); the forest prediction and the out-of-bag prediction are recomputed from the deserialised member trees and the stored in-bag masks (plurality / mean, ties in the library's favour); stratification, label values, target range and tree count are checked. For n=4 all bootstrap samples of 1-2 trees are enumerated, so the in-bag masks themselves are validated against the draws.",
+    note="Seeds outside the enumerated block are not explored; member trees are trusted to survive serde (C19). OOB rows with no out-of-bag tree are skipped.",
+)
